@@ -27,6 +27,7 @@ type HarnessCfg struct {
 	TimeoutS int               `json:"timeout_s,omitempty"`
 	QueryMs  int               `json:"query_ms,omitempty"`
 	Native   bool              `json:"native,omitempty"`
+	NoMerge  bool              `json:"nomerge,omitempty"`
 	Note     string            `json:"note,omitempty"`
 	Pin      *Model            `json:"pin,omitempty"`
 	Known    map[string]string `json:"-"`
@@ -166,7 +167,7 @@ func labelsIn(fn *ssa.Function) []string {
 				if cal := cc.StaticCallee(); cal != nil {
 					if cal.Name() == "vReach" && len(cc.Args) == 1 {
 						if c, ok := cc.Args[0].(*ssa.Const); ok {
-							lab[strings.Trim(c.Value.ExactString(), "\"")] = true
+							lab[f.Name()+":"+strings.Trim(c.Value.ExactString(), "\"")] = true
 						}
 					} else if isHarnessFile(cal) {
 						walk(cal)
@@ -362,6 +363,22 @@ func runMain(args []string) {
 			}
 			sort.Strings(ms)
 			fmt.Printf("     model: %s sched=%v\n", strings.Join(ms, " "), o.Sched)
+		}
+	}
+	if forkStats != nil {
+		type kv struct {
+			k string
+			v int
+		}
+		var l []kv
+		for k, v := range forkStats {
+			l = append(l, kv{k, v})
+		}
+		sort.Slice(l, func(i, j int) bool { return l[i].v > l[j].v })
+		for i, x := range l {
+			if i < 25 {
+				fmt.Printf("  forks %5d %s\n", x.v, x.k)
+			}
 		}
 	}
 	fmt.Println("cross:", res.Cross)
